@@ -74,7 +74,7 @@ def main():
     only = os.environ.get('VERIF_ONLY', '')
     chk.summaries.update(T.CONTRACT_SUMMARY)
     chk.summaries['secec.mitigateDebianAndSony / sampleRandomScalar'] = 'generator or error; per draw an arbitrary k in [1,n\') or an error: discharged by C09'
-    chk.summaries['secec.BuildASN1Signature'] = 'minimal DER of (r,s) (math/big + cryptobyte.Builder are library code): format checked by C12 parse-side obligations'
+    chk.stubs.append('math/big.Int (SetBytes/Sign/Bytes): unsigned big-endian magnitude; cryptobyte.Builder is executed from its real SSA')
     toys = TOYS_THOROUGH if chk.thorough else TOYS_QUICK
     tasks = []
 
@@ -162,9 +162,7 @@ def main():
                     o = m.new_obj(None, tree=[hashid, enc & (2 ** 64 - 1), selfv, False], label='ECDSAOptions')
                     opts = X.Iface(OPTS_T, X.Ptr(o, ()))
 
-                def c_asn1(m, a):
-                    return m.new_byte_slice([0x30, 0xAA] + T.be32(m.toy_sval(a[0])) + T.be32(m.toy_sval(a[1])), 'asn1-sig(stub)')
-                m.contracts[SECEC + 'BuildASN1Signature'] = c_asn1
+                stubs.install_bigint(m)      # BuildASN1Signature runs the real cryptobyte.Builder
                 sig, err = m.call(SK + 'Sign', [priv, X.Iface('stub.rand', 'RAND'), m.new_byte_slice(hb, 'digest'), opts])
                 sub.note_machine(m)
                 # admissibility
@@ -186,11 +184,18 @@ def main():
                 kk = log['k'][-1]
                 retry, r_s, s_s, v_s = spec_sign(toy, e16, d, kk)
                 el = m.slice_elems(sig)
-                want = {0: [0x30, 0xAA] + T.be32(r_s) + T.be32(s_s), 1: T.be32(r_s) + T.be32(s_s), 2: T.be32(r_s) + T.be32(s_s) + [v_s]}[eff_enc]
-                ctx.check(len(el) == len(want), 'encoding-length')
-                if len(el) == len(want):
-                    from .common import cat_bytes
-                    ctx.check(tm.eq(cat_bytes(el), cat_bytes(want), 8 * len(want)), 'bv:bytes-encode-(r,s[,v])-of-SEC1-4.1.3')
+                from .common import cat_bytes
+                if eff_enc == 0:
+                    # ASN.1: the returned bytes parse back (real strict-DER parser) to the (r,s) of SEC 1 4.1.3
+                    r2, s2, perr = m.call(SECEC + 'ParseASN1Signature', [sig])
+                    ctx.check(perr is None, 'asn1-signature-parses-back')
+                    if perr is None:
+                        ctx.check(tm.band(tm.eq(m.toy_sval(r2), r_s, W), tm.eq(m.toy_sval(s2), s_s, W)), 'bv:asn1-bytes-parse-back-to-(r,s)-of-SEC1-4.1.3')
+                else:
+                    want = {1: T.be32(r_s) + T.be32(s_s), 2: T.be32(r_s) + T.be32(s_s) + [v_s]}[eff_enc]
+                    ctx.check(len(el) == len(want), 'encoding-length')
+                    if len(el) == len(want):
+                        ctx.check(tm.eq(cat_bytes(el), cat_bytes(want), 8 * len(want)), 'bv:bytes-encode-(r,s[,v])-of-SEC1-4.1.3')
                 return 'ok'
             sub.explore('toy(%d,%d)/Sign[%s,hash=%s,enc=%s,selfverify=%s]@len%d' % (toy.p, toy.n, optkind, hashid, enc, selfv, L), h, mode='bv', unwind_ok=True)
         return task
@@ -204,7 +209,7 @@ def main():
             for enc in (0, 1, 2, 3, -1, -1000, 1 << 40):
                 for selfv in (False, True):
                     for L in (32, 64):
-                        if selfv and not chk.thorough and not (hid == 5 and enc in (0, 1, 2, -1) and L == 32):
+                        if selfv and not chk.thorough and not ((hid == 5 and enc in (0, 1, 2, -1) and L == 32) or (hid == 7 and enc in (1, 2) and L == 64)):
                             continue
                         tasks.append(('sign-opts', t_sign_opts(toy, 'opts', hid, enc, selfv, L)))
         chk.bounds.append('Sign(opts): opts in {nil, crypto.Hash{SHA-1,SHA-256,SHA-512}, *ECDSAOptions with hash {0,SHA-256,SHA-512} x encoding {0,1,2,3,-1,-1000,2^40} x SelfVerify}, digest lengths {31,32,48,64}')
